@@ -3,7 +3,7 @@
    is either guarded by the same test as in the Rust or returns Panic.
    Definitions only; proofs are in Proofs/WireProofs.v. *)
 From Coq Require Import List NArith Bool.
-From Mdns Require Import Res Bytes Utf8 Rec.
+From Mdns Require Import Res Bytes Utf8 Rec WireOut.
 Import ListNotations.
 Open Scope N_scope.
 
@@ -86,8 +86,19 @@ Fixpoint read_name_from (jumps : nat) (d : bytes) (off limit : N) (acc : bytes)
     end
   end.
 
-Definition read_name (d : bytes) (off : N) : res (bytes * N) :=
+Definition read_name_raw (d : bytes) (off : N) : res (bytes * N) :=
   read_name_from (S (length d)) d off off [] None.
+
+(* name_labels_fit (src/dns_parser.rs): every label the ENCODER would split the dotted text
+   into (trailing dot stripped, RFC 6763 escapes honoured: WireOut.name_labels) is at most 63
+   bytes.  read_name rejects names that do not fit (fix 35da75b): such a name could not be
+   sent again (follow-up query, known answer) without tripping the label assertion. *)
+Definition name_fits (name : bytes) : bool :=
+  forallb (fun l => blen l <? 64) (name_labels name).
+
+Definition read_name (d : bytes) (off : N) : res (bytes * N) :=
+  let? (name, o) := read_name_raw d off in
+  if name_fits name then Ok (name, o) else Err.
 
 (* ---- primitive readers (each returns the value and the new offset) --------------------- *)
 
